@@ -73,6 +73,18 @@ Fixpoint find_join (w : N) (j : nat) (sc : list (op * outcome)) : nat :=
   | (Join w', OOk _) :: r => if w' =? w then j else find_join w (S j) r
   | _ :: r => find_join w (S j) r
   end.
+(* does the control state change between a BgWrites and its Join? (then who is authorized
+   when the background goroutine writes is not determined by the script) *)
+Fixpoint ctl_quiet (w : N) (sc : list (op * outcome)) : bool :=
+  match sc with
+  | [] => true
+  | (Join w', OOk _) :: r => if w' =? w then true else ctl_quiet w r
+  | (OpenW _ _ _ _, OOk _) :: _ | (CloseW _, OOk _) :: _ | (SetAuth _ _, OOk _) :: _
+  | (Write _ _ _, OErr) :: _ => false
+  | _ :: r => ctl_quiet w r
+  end.
+Definition blur (r : wrec) : wrec :=
+  WRec (wr_idx r) (wr_hi r) (wr_w r) (wr_seq r) (wr_orig r) [] [] (wr_unowned r) (wr_streams r) (wr_done r).
 Fixpoint bg_wrecs (st : state) (i hi : nat) (w q : N) (kss : list (list N)) : list wrec :=
   match kss with
   | [] => []
@@ -93,7 +105,9 @@ Fixpoint wrecs (st : state) (seqs : list (N * N)) (i : nat) (sc : list (op * out
       | BgWrites w kss, OOk _ =>
           let q := default 0 (alookup w seqs) in
           let seqs' := (w, q + N.of_nat (length kss)) :: aremove w seqs in
-          bg_wrecs st i (find_join w (S i) r) w q kss ++ wrecs st' seqs' (S i) r
+          (if ctl_quiet w r then bg_wrecs st i (find_join w (S i) r) w q kss
+           else map blur (bg_wrecs st i (find_join w (S i) r) w q kss))
+          ++ wrecs st' seqs' (S i) r
       | _, _ => wrecs st' seqs (S i) r
       end
   end.
